@@ -9,6 +9,7 @@ input is short enough (or no size is given) and otherwise returns exactly m of t
 
 Only property theorems and non-vacuity examples live here; helpers are in Proofs/StatsSets.lean.
 -/
+import Prs.Proofs.Powerlaw
 import Prs.Proofs.StatsSets
 import Mathlib.Data.Nat.Choose.Basic
 
@@ -130,3 +131,28 @@ example : IsDownsample [1, 2, 3] none [1, 2, 3] := rfl
 
 end Prs
 
+
+namespace Prs
+/-- powerlaw_sample: over the reals, for every integer xmin ≥ 1, exponent α > 1 and uniform draw
+r ∈ [0, 1), the value ⌊(xmin − ½)(1 − r)^(−1/(α−1)) + ½⌋ is an integer ≥ xmin (float rounding is not
+modelled) -/
+theorem C17_powerlaw_ge_xmin (xmin : ℕ) (hx : 1 ≤ xmin) (α r : ℝ) (hα : 1 < α) (hr0 : 0 ≤ r)
+    (hr1 : r < 1) :
+    (xmin : ℤ) ≤ ⌊((xmin : ℝ) - 1/2) * (1 - r) ^ (-1 / (α - 1)) + 1/2⌋ :=
+  powerlaw_ge_xmin xmin hx α r hα hr0 hr1
+
+/-- the smallest draw gives exactly xmin, and larger draws never give smaller values -/
+theorem C17_powerlaw_r0 (xmin : ℕ) (α : ℝ) :
+    ⌊((xmin : ℝ) - 1/2) * (1 - (0:ℝ)) ^ (-1 / (α - 1)) + 1/2⌋ = xmin := powerlaw_r0 xmin α
+
+theorem C17_powerlaw_mono (xmin : ℕ) (hx : 1 ≤ xmin) (α : ℝ) (hα : 1 < α) (r r' : ℝ) (h0 : 0 ≤ r)
+    (hrr : r ≤ r') (h1 : r' < 1) :
+    ⌊((xmin : ℝ) - 1/2) * (1 - r) ^ (-1 / (α - 1)) + 1/2⌋ ≤
+      ⌊((xmin : ℝ) - 1/2) * (1 - r') ^ (-1 / (α - 1)) + 1/2⌋ :=
+  powerlaw_mono xmin hx α hα r r' h0 hrr h1
+
+/-- the 'simple' closed form 1 + n / Σ ln(c/cmin) is the unique stationary point of the continuous
+power-law log-likelihood n·ln(α−1) − α·S (S = Σ ln(c/cmin)) on α > 1 -/
+theorem C17_mle_simple_stationary (n : ℕ) (S : ℝ) (hn : 0 < n) (hS : 0 < S) (α : ℝ) (hα : 1 < α) :
+    (n : ℝ) / (α - 1) - S = 0 ↔ α = 1 + (n : ℝ) / S := mle_simple_stationary n S hn hS α hα
+end Prs
